@@ -3,8 +3,8 @@
    compared with these programs on every run.  Proofs/IterProgP.v shows that running the programs is exactly
    `it_nth` / `it_next_back` / `it_len` of Model/Iter.v, on which the C05 theorems are stated.  Executable. *)
 Require Export Strum.Model.Iter.
-Local Open Scope Z_scope.
 Local Open Scope string_scope.
+Local Open Scope Z_scope.
 
 Inductive iexp :=
   | EIdx | EBack                    (* self.idx | self.back_idx *)
@@ -99,29 +99,29 @@ Fixpoint z_digits (fuel : nat) (z : Z) (acc : string) : string :=
   match fuel with
   | O => acc
   | S f => let d := String (Ascii.ascii_of_nat (48 + Z.to_nat (z mod 10))) "" in
-           if z <? 10 then d ++ acc else z_digits f (z / 10) (d ++ acc)
+           if z <? 10 then (d ++ acc)%string else z_digits f (z / 10) (d ++ acc)%string
   end.
-Definition show_z (z : Z) : string := if z <? 0 then "-" ++ z_digits 40 (- z) "" else z_digits 40 z "".
+Definition show_z (z : Z) : string := if z <? 0 then ("-" ++ z_digits 40 (- z) "")%string else z_digits 40 z "".
 
 Fixpoint show_exp (cnt : Z) (e : iexp) : string :=
   match e with
-  | EIdx => "idx" | EBack => "back" | EVar x => "$" ++ x | ELit z => show_z z | ECount => show_z cnt
-  | EAdd a b => "(add " ++ show_exp cnt a ++ " " ++ show_exp cnt b ++ ")"
-  | ESub a b => "(sub " ++ show_exp cnt a ++ " " ++ show_exp cnt b ++ ")"
-  | ESat a b => "(sat " ++ show_exp cnt a ++ " " ++ show_exp cnt b ++ ")"
+  | EIdx => "idx" | EBack => "back" | EVar x => ("$" ++ x)%string | ELit z => show_z z | ECount => show_z cnt
+  | EAdd a b => ("(add " ++ show_exp cnt a ++ " " ++ show_exp cnt b ++ ")")%string
+  | ESub a b => ("(sub " ++ show_exp cnt a ++ " " ++ show_exp cnt b ++ ")")%string
+  | ESat a b => ("(sat " ++ show_exp cnt a ++ " " ++ show_exp cnt b ++ ")")%string
   end.
 Definition show_cond (cnt : Z) (c : icond) : string :=
   match c with
-  | CGt a b => "(gt " ++ show_exp cnt a ++ " " ++ show_exp cnt b ++ ")"
-  | CGe a b => "(ge " ++ show_exp cnt a ++ " " ++ show_exp cnt b ++ ")"
+  | CGt a b => ("(gt " ++ show_exp cnt a ++ " " ++ show_exp cnt b ++ ")")%string
+  | CGe a b => ("(ge " ++ show_exp cnt a ++ " " ++ show_exp cnt b ++ ")")%string
   end.
 Fixpoint show_stmt (cnt : Z) (p : istmt) : string :=
   match p with
-  | SLet x e k => "(let " ++ x ++ " " ++ show_exp cnt e ++ " " ++ show_stmt cnt k ++ ")"
-  | SIf c t e => "(if " ++ show_cond cnt c ++ " " ++ show_stmt cnt t ++ " " ++ show_stmt cnt e ++ ")"
-  | SSetIdx e k => "(setidx " ++ show_exp cnt e ++ " " ++ show_stmt cnt k ++ ")"
-  | SSetBack e k => "(setback " ++ show_exp cnt e ++ " " ++ show_stmt cnt k ++ ")"
+  | SLet x e k => ("(let " ++ x ++ " " ++ show_exp cnt e ++ " " ++ show_stmt cnt k ++ ")")%string
+  | SIf c t e => ("(if " ++ show_cond cnt c ++ " " ++ show_stmt cnt t ++ " " ++ show_stmt cnt e ++ ")")%string
+  | SSetIdx e k => ("(setidx " ++ show_exp cnt e ++ " " ++ show_stmt cnt k ++ ")")%string
+  | SSetBack e k => ("(setback " ++ show_exp cnt e ++ " " ++ show_stmt cnt k ++ ")")%string
   | SNone => "none"
-  | SGet e => "(get " ++ show_exp cnt e ++ ")"
-  | SHint e => "(hint " ++ show_exp cnt e ++ ")"
+  | SGet e => ("(get " ++ show_exp cnt e ++ ")")%string
+  | SHint e => ("(hint " ++ show_exp cnt e ++ ")")%string
   end.
